@@ -744,6 +744,34 @@ func TestVerifC04(t *testing.T) {
 			collisions[kind] = [2]c04q{a, q}
 		}
 	}
+	// K2: field-boundary family (before the big product: it is the cheaper and the sharper one)
+	b2classes := []uint16{1, 0x612e, 0x622e, 0x2e61, 0x2e62, 0x6161}
+	b2types := []uint16{1, 0x612e, 0x2e61}
+	res.Bounds["K2.boundary"] = fmt.Sprintf("names {a, b, a.a, a.b, b.a, b.b, a.a.a} x (all 65536 types x classes %v + all 65536 classes x types %v) x 8 flags", b2classes, b2types)
+	for _, n := range c04boundary {
+		if !res.Exhaustive {
+			break
+		}
+		if e.Expired() {
+			res.Exhaustive = false
+			res.Notes = append(res.Notes, "K2: budget expired in the field-boundary family")
+			break
+		}
+		for ti := 0; ti < 65536; ti++ {
+			for _, c := range b2classes {
+				for f := uint8(0); f < 8; f++ {
+					visit(c04q{N: n, T: uint16(ti), C: c, F: f})
+				}
+			}
+		}
+		for c := 0; c < 65536; c++ {
+			for _, ty := range b2types {
+				for f := uint8(0); f < 8; f++ {
+					visit(c04q{N: n, T: ty, C: uint16(c), F: f})
+				}
+			}
+		}
+	}
 	namesDone := 0
 	for n := 0; n < nNames && res.Exhaustive; n++ {
 		for _, c := range classes {
@@ -787,34 +815,6 @@ func TestVerifC04(t *testing.T) {
 				}
 			}
 			sweepDone++
-		}
-	}
-	// K2: field-boundary family
-	b2classes := []uint16{1, 0x612e, 0x622e, 0x2e61, 0x2e62, 0x6161}
-	b2types := []uint16{1, 0x612e, 0x2e61}
-	res.Bounds["K2.boundary"] = fmt.Sprintf("names {a, b, a.a, a.b, b.a, b.b, a.a.a} x (all 65536 types x classes %v + all 65536 classes x types %v) x 8 flags", b2classes, b2types)
-	for _, n := range c04boundary {
-		if !res.Exhaustive {
-			break
-		}
-		if e.Expired() {
-			res.Exhaustive = false
-			res.Notes = append(res.Notes, "K2: budget expired in the field-boundary family")
-			break
-		}
-		for ti := 0; ti < 65536; ti++ {
-			for _, c := range b2classes {
-				for f := uint8(0); f < 8; f++ {
-					visit(c04q{N: n, T: uint16(ti), C: c, F: f})
-				}
-			}
-		}
-		for c := 0; c < 65536; c++ {
-			for _, ty := range b2types {
-				for f := uint8(0); f < 8; f++ {
-					visit(c04q{N: n, T: ty, C: uint16(c), F: f})
-				}
-			}
 		}
 	}
 	for n, v := range perName {
